@@ -19,6 +19,44 @@ def find_harness(name):
     return None, None, None
 
 
+HARNESS_FILE = {'src/lib.rs': 'harness.rs', 'src/sys.rs': 'sys_harness.rs', 'src/loop_logic.rs': 'loop_harness.rs'}
+
+
+def replay_incrate(r, path, g, h):
+    """A harness compiled inside the real crate: Kani's concrete playback. The unit tests Kani generated for the failed
+    checks (the counterexample as bytes per kani::any()) are appended to a scratch copy of the harness file and executed
+    NATIVELY on the real crate by `cargo kani playback` -- no model checker involved, the real code runs on the inputs."""
+    wd = os.path.join(os.environ.get('VERIF_BUILD_DIR') or os.path.join(ROOT, 'build'), 'replay-%s' % h['name'])
+    shutil.rmtree(wd, ignore_errors=True)
+    inc = os.path.join(wd, 'verif', 'kx', 'incrate')
+    os.makedirs(inc)
+    for f in os.listdir(os.path.join(KX, 'incrate')):
+        shutil.copy(os.path.join(KX, 'incrate', f), os.path.join(inc, f))
+    hf = os.path.join(inc, HARNESS_FILE[g.get('hook_file', 'src/lib.rs')])
+    with open(hf, 'a') as fh:
+        for t in r['playback_tests']:
+            fh.write('\n' + t + '\n')
+    env = dict(os.environ, CARGO_NET_OFFLINE='true', CALLOOP_VERIF_DIR=os.path.join(wd, 'verif'), CARGO_TARGET_DIR=os.path.join(wd, 'target'))
+    cmd = ['cargo', 'kani', 'playback', '-Z', 'concrete-playback', '-p', 'calloop', '--', 'kani_concrete_playback_' + h['name']]
+    p = subprocess.run(cmd, cwd=REPO, capture_output=True, text=True, env=env)
+    out = p.stdout + p.stderr
+    shutil.rmtree(wd, ignore_errors=True)
+    m = __import__('re').search(r'test result: (\w+)\. (\d+) passed; (\d+) failed', out)
+    for l in out.splitlines():
+        if 'panicked at' in l or l.startswith('test ') or 'test result' in l:
+            print(l)
+    if m and int(m.group(3)) > 0:
+        print('the real code violates the obligation on the inputs of the counterexample (%s; bound: %s)' % (h['what'], h.get('bound', 'none')))
+        print('VIOLATION property=%s replay=%s' % (r.get('property'), path))
+        return 1
+    if m and int(m.group(2)) > 0:
+        print('the real code satisfies the obligation on the inputs of the counterexample: suspected false alarm of the verifier')
+        return 0
+    print('the playback could not be run:')
+    print(out[-3000:])
+    return 2
+
+
 def run(path, prop):
     r = json.load(open(path))
     print('replay: property=%s obligation=%s backend=%s' % (r.get('property'), r.get('obligation'), r.get('backend')))
@@ -30,6 +68,8 @@ def run(path, prop):
         print('VIOLATION property=%s replay=%s no-failing-input-found' % (r.get('property'), path))
         return 1
     gname, g, h = find_harness(twin)
+    if h is not None and g.get('kind') == 'incrate' and r.get('playback_tests'):
+        return replay_incrate(r, path, g, h)
     if h is None or g.get('kind') != 'leaf':
         print('counterexample %s for harness %s cannot be replayed outside Kani; verifier output:' % (inputs, twin))
         print(r.get('verifier_output', '')[:6000])
